@@ -46,6 +46,7 @@ pub fn write(a: &SupArgs, prop: &'static dyn Prop, m: &Merged, total: u64, wall:
         cov.put("extra", x);
     }
     cov.put("violating_cases", J::U(m.viol_cases));
+    cov.put("stopped_early_after_many_violations", J::Bool(m.stopped_early));
     cov.put("unknown_violation_groups", J::U(unknown_groups as u64));
     cov.put("known_findings_hit", J::Obj(known.iter().map(|(k, v)| (k.clone(), J::U(*v))).collect()));
     cov.put("replay_files", J::Arr(replays.iter().map(|s| J::s(s)).collect()));
